@@ -188,6 +188,50 @@ def arbList {α : Type} (a : G → α × G) (g : G) : List α × G :=
       go n g (x :: acc)
   go len g []
 
+/-- `Result<T, E>` is `Except E T`: `ok` three times out of four -/
+def arbExcept {ε α : Type} (ok : G → α × G) (err : G → ε × G) (g : G) : Except ε α × G :=
+  let (m, g) := below 4 g
+  if m = 0 then
+    let (e, g) := err g
+    (Except.error e, g)
+  else
+    let (x, g) := ok g
+    (Except.ok x, g)
+
+/-- exactly `n` elements: the value of an array type `[T; N]` once the const generic `N` is chosen -/
+def arbListN {α : Type} (n : Nat) (a : G → α × G) (g : G) : List α × G :=
+  let rec go (n : Nat) (g : G) (acc : List α) : List α × G :=
+    match n with
+    | 0 => (acc, g)
+    | n + 1 =>
+      let (x, g) := a g
+      go n g (x :: acc)
+  go n g []
+
+/-- a `u32` for the probe functions (`Probes*`: fixed closures that compare an element with a key, test parity,
+    divide): half of the time a value from a ten-element alphabet, so that a key argument generated after a
+    slice occurs in it and occurs more than once; otherwise the machine-arithmetic values of `arbUBits 32` -/
+def arbSmallU32 (g : G) : Nat × G :=
+  let (m, g) := below 2 g
+  if m = 0 then pick [0, 1, 2, 3, 4, 5, 6, 7, 9, 12] g else arbUBits 32 g
+
+/-- a valid UTF-8 string for the probe functions: mostly the characters of the probes' own literals (`"ab"`, `"a"`,
+    `"b"`, `"b\u{e9}"` of the `parser_method!` probes, the `','` of the split probe, digits for `parse_u8`) plus one
+    character of `charPool`, so that every literal occurs, occurs repeatedly, and occurs next to a multi-byte character -/
+def arbProbeStr (g : G) : List Nat × G :=
+  let (len, g) := pick [0, 1, 1, 2, 2, 3, 3, 4, 5, 6, 8, 12, 17, 40] g
+  let (c, g) := pick charPool g
+  let alpha : List (List Nat) := [[97], [98], [97], [98], [0xC3, 0xA9], [44], [50], [53], [0xC3, 0xA9], c]
+  let rec go (n : Nat) (g : G) (acc : List (List Nat)) : List (List Nat) × G :=
+    match n with
+    | 0 => (acc, g)
+    | n + 1 =>
+      let (i, g) := below alpha.length g
+      go n g (alpha.getD i [97] :: acc)
+  let (cs, g) := go len g []
+  let l := cs.flatten
+  (l, { g with pool := g.pool ++ [l] })
+
 /-- run `n` samples of one comparison; print the first few inputs on which it reports a difference -/
 def run (name : String) (n seed : Nat) (f : G → Option String × G) : IO Nat := do
   let mut found := 0
